@@ -567,6 +567,23 @@ func (c *Checker) checkSupply(x *callCtx) {
 			addTo(c.expected, k, neg(c.cache.decode(x.pre.value(call.Rcv, k)).Val()))
 		}
 	}
+	// "any operation that would take more than the account holds fails": a successful burn above the pre-state holding
+	switch call.Fn {
+	case FnLocalBurn, FnBurn:
+		if len(a) >= 2 {
+			held := c.cache.decode(x.pre.value(call.Caller, TokenKey(a[0], 0))).Val()
+			if Big(a[1]).Cmp(held) > 0 {
+				c.report(x, "C02", "%s of %s succeeded although account %x held only %s", call.Fn, Big(a[1]), call.Caller, held)
+			}
+		}
+	case FnNFTBurn:
+		if len(a) >= 3 {
+			held := c.cache.decode(x.pre.value(call.Caller, TokenKey(a[0], U64(a[1])))).Val()
+			if Big(a[2]).Cmp(held) > 0 {
+				c.report(x, "C02", "%s of %s succeeded although account %x held only %s", call.Fn, Big(a[2]), call.Caller, held)
+			}
+		}
+	}
 	actual := c.actualTotals()
 	if d := diffTotals(c.expected, actual); d != "" {
 		prop := "C02"
@@ -1204,6 +1221,7 @@ func (c *Checker) checkEntry(x *callCtx, addr []byte, k string, v []byte) {
 	}
 	if t.Value.Sign() < 0 {
 		c.report(x, "C15", "entry %x of account %x has the negative value %s", k, addr, t.Value)
+		c.report(x, "C02", "stored balance %x of account %x is negative: %s", k, addr, t.Value) // C02's last clause
 	}
 	if t.Value.Sign() == 0 && !(t.TokenMetaData == nil && e.Frozen) {
 		c.report(x, "C15", "entry %x of account %x has value 0 and is not a frozen-flag carrier", k, addr)
